@@ -32,7 +32,7 @@ CHECKS = {
 }
 CLAIMS = {
     "C06": dict(
-        text="All request programs (start, run, cancel from main context, cancel from a timer callback, back-to-back request) up to the step bound are executed on the real network_*.c + events/*.c + sock.c against every fake-kernel answer sequence within the deviation bound (arrival amounts, would-block, spurious readiness, EINTR, EOF/reset at every script length, connection behaviours per address, accept errors). A lock-step monitor checks exactly-once completion, byte-exact transfer, result ranges, nothing transferred while idle, descriptors closed exactly once, attempt order, MSG_NOSIGNAL, and that an active request is always polled.",
+        text="All request programs (start, run, cancel from main context, cancel from a timer callback, back-to-back request; a duplex driver with read and write requests pending on two descriptors at once) up to the step bound are executed on the real network_*.c + events/*.c + sock.c against every fake-kernel answer sequence within the deviation bound (arrival amounts, would-block, spurious readiness, EINTR, EOF/reset at every script length, connection behaviours per address, accept errors). A lock-step monitor checks exactly-once completion, byte-exact transfer, result ranges, nothing transferred while idle, descriptors closed exactly once, attempt order, MSG_NOSIGNAL, that an active request is always polled, that a request completes once recv/send reported end-of-stream or an error, that an attempt is abandoned only by its own timeout, and that the loop never spins (poll horizon = livelock).",
         note="Trusted: fake kernel engine/fk.c, monitor in harness/h_netio.c, ASan/UBSan. No claim beyond the stated request sizes, script lengths, step and deviation bounds; bind addresses and allocation failure (C14) not covered here.",
         technique="stateless deviation-bounded model checking of the real code under a fake kernel with state matching", engine="mc"),
 }
